@@ -204,9 +204,13 @@ def _worker(cases):
         # fields): it is still a valid schema and introspection must report exactly the same
         def everything_is_none(root, ctx, info, **kw):
             return None
+        try:        # ... built from subclasses of the library's type classes at the same time
+            schema = schemagamma.realize(a, subclassed=True)
+        except Exception:
+            pass
         schema.default_resolver = everything_is_none
         n += 1
-        wit = {"incl": incl, "cfg": "blocking-optimised + schema.default_resolver", "schema_edit": c.get("_label")}
+        wit = {"incl": incl, "cfg": "blocking-optimised + schema.default_resolver + subclassed type classes", "schema_edit": c.get("_label")}
         sub = {}
         try:
             res = c10.run_config("blocking-optimised", schema, q)
